@@ -14,6 +14,7 @@ import (
 	"github.com/256dpi/lungo"
 	"go.mongodb.org/mongo-driver/bson"
 	"go.mongodb.org/mongo-driver/bson/primitive"
+	"go.mongodb.org/mongo-driver/mongo"
 	"go.mongodb.org/mongo-driver/mongo/options"
 
 	"verifharness/fw"
@@ -36,7 +37,7 @@ func init() {
 		Batches:     func(tier string) int { return 16 },
 		Parallel:    func(tier string) int { return 8 },
 		Require: func(tier string) map[string]int64 {
-			return map[string]int64{"scenarios": 600, "directed_runs": 200, "directed_achieved": 40, "quiescent_checks": 600, "closed_checks": 60, "shared_session_scenarios": 60, "store_faults": 40, "panics_injected": 20, "panicking_write_callbacks": 10,
+			return map[string]int64{"scenarios": 600, "directed_runs": 200, "directed_achieved": 40, "quiescent_checks": 600, "closed_checks": 60, "shared_session_scenarios": 60, "store_faults": 40, "panics_injected": 20, "panicking_write_callbacks": 10, "failing_calls": 40,
 				"cancelled_contexts": 60, "hook_events": 20000, "interleavings_recorded": 300}
 		},
 		WorkerTimeoutSec: func(tier string) int {
@@ -72,7 +73,7 @@ func (s *faultStore) Store(c *lungo.Catalog) error {
 }
 
 var c16Steps = []string{
-	"write", "write", "write_cancelled", "write_deadline", "write_panicking", "read",
+	"write", "write", "write_cancelled", "write_deadline", "write_panicking", "write_failing", "ddl_failing", "read",
 	"begin", "commit", "abort",
 	"sess.start", "sess.write", "sess.commit", "sess.abort", "sess.end", "sess.drop", "sess.index",
 	"with_txn_ok", "with_txn_err", "with_txn_panic",
@@ -101,7 +102,7 @@ func c16Gen(r *fw.Rand) c16Scenario {
 			case 0: // session heavy
 				st = fw.Pick(r, []string{"sess.start", "sess.write", "sess.commit", "sess.abort", "sess.end", "sess.drop", "sess.index", "sess.start", "sess.commit", "write"})
 			case 1: // raw engine
-				st = fw.Pick(r, []string{"begin", "commit", "abort", "begin", "write", "write_cancelled", "write_deadline", "write_panicking", "store.fail", "store.panic"})
+				st = fw.Pick(r, []string{"begin", "commit", "abort", "begin", "write", "write_cancelled", "write_deadline", "write_panicking", "write_failing", "ddl_failing", "store.fail", "store.panic"})
 			case 2: // streams and close
 				st = fw.Pick(r, []string{"watch", "next", "stream.close", "write", "close", "read", "with_txn_ok"})
 			default:
@@ -221,6 +222,8 @@ var c16StepPoints = map[string][]string{
 	"sess.index":      {"begin.locked", "begin.unlocked", "begin.acquired", "commit.locked"},
 	"with_txn_ok":     {"session.start.reserved", "begin.unlocked", "begin.acquired", "session.start.begun", "session.commit.locked", "commit.before_store", "token.release", "session.abort.locked"},
 	"with_txn_err":    {"session.start.reserved", "begin.acquired", "session.abort.locked", "abort.locked", "token.release"},
+	"write_failing":   {"begin.locked", "begin.unlocked", "begin.acquired", "abort.locked", "token.release"},
+	"ddl_failing":     {"begin.locked", "begin.unlocked", "begin.acquired", "abort.locked", "token.release"},
 	"write_panicking": {"begin.locked", "begin.unlocked", "begin.acquired", "abort.locked", "token.release"},
 	"with_txn_panic":  {"session.start.reserved", "begin.acquired", "session.abort.locked", "abort.locked", "token.release"},
 	"next":            {"stream.before_wait", "stream.woken"},
@@ -566,6 +569,53 @@ func c16Step(c *fw.Ctx, a *c16Actor, st string, client lungo.IClient, engine *lu
 			note("err=%v", err)
 		} else {
 			_, err := coll.UpdateOne(wctx, bson.D{}, bson.D{{Key: "$max", Value: bson.D{{Key: "sym", Value: primitive.Symbol("s")}}}}, options.Update().SetUpsert(true))
+			note("err=%v", err)
+		}
+	case "write_failing":
+		// calls whose callback returns an error (duplicate key, invalid update,
+		// immutable _id): the error path must give the slot back
+		c.Count("failing_calls", 1)
+		wctx, cancel := context.WithTimeout(ctx, 300*time.Millisecond)
+		defer cancel()
+		switch a.id % 3 {
+		case 0:
+			coll.InsertOne(wctx, bson.D{{Key: "_id", Value: "dup"}})
+			_, err := coll.InsertOne(wctx, bson.D{{Key: "_id", Value: "dup"}})
+			note("err=%v", err)
+		case 1:
+			_, err := coll.UpdateMany(wctx, bson.D{}, bson.D{{Key: "$inc", Value: bson.D{{Key: "_id", Value: int32(1)}}}})
+			note("err=%v", err)
+		default:
+			_, err := coll.BulkWrite(wctx, []mongo.WriteModel{mongo.NewInsertOneModel().SetDocument(bson.D{{Key: "_id", Value: "dup2"}}), mongo.NewInsertOneModel().SetDocument(bson.D{{Key: "_id", Value: "dup2"}})})
+			note("err=%v", err)
+		}
+	case "ddl_failing":
+		// index and collection calls that begin and abort their own transaction,
+		// on their error paths: conflicting index definition, dropping a missing
+		// or the _id index, creating an existing collection
+		c.Count("failing_calls", 1)
+		wctx, cancel := context.WithTimeout(ctx, 300*time.Millisecond)
+		defer cancel()
+		switch a.id % 4 {
+		case 0:
+			coll.Indexes().CreateOne(wctx, mongoIndexModel(bson.D{{Key: "a", Value: int32(1)}}, options.Index().SetName("ix")))
+			_, err := coll.Indexes().CreateOne(wctx, mongoIndexModel(bson.D{{Key: "b", Value: int32(1)}}, options.Index().SetName("ix")))
+			note("err=%v", err)
+		case 1:
+			_, err := coll.Indexes().DropOne(wctx, "no-such-index")
+			note("err=%v", err)
+			_, err = coll.Indexes().DropOne(wctx, "_id_")
+			note("err=%v", err)
+		case 2:
+			coll.InsertOne(wctx, bson.D{{Key: "u", Value: int32(1)}})
+			coll.InsertOne(wctx, bson.D{{Key: "u", Value: int32(1)}})
+			_, err := coll.Indexes().CreateOne(wctx, mongoIndexModel(bson.D{{Key: "u", Value: int32(1)}}, options.Index().SetUnique(true)))
+			note("err=%v", err)
+		default:
+			client.Database("d").CreateCollection(wctx, "made")
+			err := client.Database("d").CreateCollection(wctx, "made")
+			note("err=%v", err)
+			_, err = client.Database("d").Collection("never-made").Indexes().DropAll(wctx)
 			note("err=%v", err)
 		}
 	case "write_cancelled":
